@@ -10,6 +10,16 @@ STANDING_ASSUMPTIONS = [
 ]
 
 PROPERTIES = {
+    'C17': {
+        'units': ['keys', 'index'],
+        'sample_functions': ['Lmdb::index', 'Lmdb::deindex', 'Lmdb::key_atc_index'],
+        'not_decided': ['"is returned by every filter shape": that is Store::find_events, which is outside the reach of this technique (DESIGN.md 5, C05)'],
+    },
+    'C11': {
+        'units': ['keys', 'index'],
+        'sample_functions': ['Lmdb::mark_naddr_deleted', 'Lmdb::when_is_naddr_deleted', 'Lmdb::key_naddr_index'],
+        'not_decided': [],
+    },
     'C06': {
         'units': ['filter', 'tags'],
         'sample_functions': ['Filter::event_matches', 'Tags::matches', 'Tags::get_string'],
